@@ -306,10 +306,10 @@ def gen_wellformed(runner, tier, seed):
     # checksums whose 32-bit sum carries twice when folded: long runs of 0xff make that likely
     s = runner.session(cfg_plain(), "wf checksum folding with large sums")
     fr = []
-    for seq in range(64 if tier == "quick" else 1024):
+    for seq in range(64 if tier == "quick" else 256):
         fr.append(p6.echo(0xffff, seq * 1021 & 0xffff, b"\xff" * 8000))
         fr.append(p4.echo(0xffff, seq * 1021 & 0xffff, b"\xff" * 8000))
-    for k in range(32 if tier == "quick" else 512):
+    for k in range(32 if tier == "quick" else 256):
         fr.append(p6.udp(k * 2039 & 0xffff, 80, http_request("GET", b"/" + b"\xff" * 900)))
     s.send(fr)
     # requests whose own checksums are wrong (the responder does not validate them; what it emits must still be right)
